@@ -49,9 +49,9 @@ Lemma filter_usable_length avoid l :
   (length (filter (usable avoid) l) + (if avoid then length (filter buggy l) else O) = length l)%nat.
 Proof.
   unfold usable. induction l as [|x l IH]; [destruct avoid; reflexivity|].
-  cbn [filter]. destruct avoid; cbn [andb negb].
-  - destruct (buggy x); cbn [negb length]; lia.
-  - cbn [length]. lia.
+  cbn [filter]. destruct avoid; cbn [andb negb] in *.
+  - destruct (buggy x); cbn [negb length] in *; lia.
+  - cbn [length] in *. lia.
 Qed.
 
 Lemma filter_buggy_v6 first n : filter buggy (range_ips F6 first n) = [].
@@ -64,7 +64,7 @@ Proof.
   intros HK. unfold buggy_upto.
   replace (t * (256 * K) + 256 * K) with ((t * K + K) * 256) by lia.
   replace (t * (256 * K)) with ((t * K) * 256) by lia.
-  rewrite !N.div_mul, !N.mod_mul by discriminate. cbn. lia.
+  rewrite !N.div_mul, !N.mod_mul by discriminate. rewrite N.eqb_refl. nia.
 Qed.
 
 (* a block of blk addresses (blk a proper divisor of 256, at least 2) starting at a multiple of blk *)
